@@ -628,7 +628,14 @@ def run(ck):
     check_one(ck, import_json, case, mo, state)
   # the Lean counter-examples on the real code
   for name, data, sig in WITNESSES:
-    out = real_dumps(import_json, name, data, "", "")
+    try:
+      out = real_dumps(import_json, name, data, "", "")
+    except RecursionError:
+      raise
+    except Exception as e:      # the importer must not reject a JSON document
+      ck.violation("importer raises on a JSON document", "%s: %s" % (type(e).__name__, e),
+                   {"name": name, "data": data, "inc": "", "exc": ""})
+      continue
     probs = Oracle(data, name, "", "", out).run()
     if sig not in [p[0] for p in probs]:
       ck.broken("Lean witness does not fail on the real code", "%r %r: %r" % (name, data, probs))
@@ -660,8 +667,15 @@ def text_stream(ck, import_json, state):
       ck.evaluated(); ck.count("cases_text")
       with open(os.path.join(d, "f.json"), "w", encoding="utf8") as f:
         f.write(txt)
-      out = import_json.parse_file({"path": "f.json", "origName": "f.json"}, {})
       data = json.loads(txt)
+      try:
+        out = import_json.parse_file({"path": "f.json", "origName": "f.json"}, {})
+      except RecursionError:
+        raise
+      except Exception as e:      # the importer must not reject a JSON document
+        ck.violation("importer raises on a JSON document", "%s: %s" % (type(e).__name__, e),
+                     {"name": "f", "text": txt, "inc": "", "exc": ""})
+        continue
       for sig, detail in Oracle(data, "f", "", "", out).run():
         ck.violation(sig, detail, {"name": "f", "text": txt, "inc": "", "exc": ""})
       cm, cr = canon_model(mo), canon_real(out)
